@@ -178,7 +178,9 @@ PROPS = {
                    # redirect worlds (non-https hops, relative and cross-host Locations): what goes on the wire there
                    {"name": "C03", "quick": 400, "thorough": 10000, "workers": 8},
                    # every request sent while whole worlds are browsed (identifiers with fragments, relative references, redirects)
-                   {"name": "C02", "quick": 400, "thorough": 12000, "workers": 8}],
+                   {"name": "C02", "quick": 400, "thorough": 12000, "workers": 8},
+                   # several webfinger lookups in flight at once, for accounts on different hosts (a feed of @user@host sources opening)
+                   {"name": "C04par", "quick": 120, "thorough": 4000, "workers": 8}],
         "rule": "fetches of URLs with hostile paths and queries (raw and encoded CR/LF and LF alone, a whole second request encoded in path or query, spaces, %00, fragments, escaped delimiters %2F %3F %23 %25, broken escapes, non-ASCII, brackets and braces, dot segments, request targets of 1.5 kB to 280 kB), "
                 "userinfo of every shape (also carrying encoded CR/LF or a header name), upper-case scheme, non-https and look-alike schemes, scheme-less references, authorities spelled other ways (a name in other letter case or with a trailing dot, IPv6 literals in two spellings, with a zone, IPv4-mapped; the default port absent, written, empty, with a leading zero; a wrong port; IDN and percent-encoded names), "
                 "redirects to plaintext (absolute, scheme-relative, upper-case) and to Locations carrying CR/LF, userinfo or a tab, a plaintext canary listener; webfinger lookups with hostile account and domain parts (CR, LF, CR/LF raw and encoded, tabs, NUL, spaces, '#', '?', userinfo, unresolvable names, 4.8 kB accounts, the name / IPv6 / default-port hosts); "
